@@ -643,11 +643,19 @@ void campaign(Ctx& ctx)
 	ctx.rc_campaign("udp histories (long)", gen_case(c20, 80), n / 2, 200, 2);
 }
 
+std::vector<Case> generate(Ctx& ctx, int n)
+{
+	std::vector<Case> out; rc::Random rnd(ctx.opt.seed * 9173 + 7); auto g = gen_case(false, 40);
+	for (int i = 0; i < n; ++i) { rc::Random r = rnd.split(); out.push_back(g(r, 10 + (i % 50)).value()); }
+	return out;
+}
+
 } // namespace
 
 int main(int argc, char** argv)
 {
 	Harness h;
+	h.generate = generate;
 	h.name = "h_udp";
 	h.run_case = run_case;
 	h.campaign = campaign;
